@@ -140,19 +140,23 @@ def plan_c06(case):
         e = R.enc_event(codec, obj, d, c)
         ev.append(e)
         if e['st'] == 'ok':
-            wires.append((codec, e['wire'], len(ev)))
+            wires.append((codec, e['wire'], len(ev), ''))
     for m in sorted(case['forms']):
         rules = m if m in ('der', 'cer') else 'ber'
-        wires.append((rules, case['forms'][m], 0))
+        wires.append((rules, case['forms'][m], 0, m))
     seen = set()
-    for rules, w, src in wires:
+    for rules, w, src, form in wires:
         if (rules, tuple(w)) in seen or len(w) > 80:
             continue
         seen.add((rules, tuple(w)))
-        for k in range(len(w)):
-            ev.append(R.dec_event(rules, w[:k], case['T'], spec, 'prefix', src=src))
-            ev.append(R.dec_event(rules, w[:k], case['T'], spec, 'prefix', src=src, via='stream'))
-            ev.append(R.dec_event(rules, w[:k], case['T'], spec, 'prefix', src=src, guided=False))
+        for guided, via in ((True, 'bytes'), (True, 'stream'), (False, 'bytes')):
+            sts, excs = [], []
+            for k in range(len(w)):
+                d = R.dec_event(rules, w[:k], case['T'], spec, 'prefix', guided=guided, via=via)
+                sts.append(d['st'])
+                excs.append(d['exc'])
+            ev.append({'op': 'pfxs', 'wire': list(w), 'src': src, 'mode': form, 'rules': rules, 'guided': guided,
+                       'via': via, 'sts': sts, 'excs': excs})
     return trace(case, ev)
 
 
@@ -380,7 +384,7 @@ PROPS = {
                 cfg=lambda tier: cfg(tier, modes=['der', 'cer', 'ber_indef', 'ber_indef_c1', 'v_indefdef', 'v_long'],
                                      quick=dict(kinds=['bool', 'int', 'bits', 'octs', 'null', 'oid', 'real', 'utf8', 'enum'],
                                                 shapes=['scalar', 'any', 'seqof', 'setof', 'choice', 'deep']),
-                                     thorough=dict(pool=1)), sizes=False),
+                                     thorough=dict(pool=1, cuts=True)), sizes=False),
     'C07': dict(plan=plan_c07, clauses={'Rejected', 'NotAValue', 'ValueDiffers', 'RestDiffers', 'Crash', 'OneTLV'},
                 cfg=lambda tier: cfg(tier, modes=['ber_indef', 'v_indefdef', 'v_nestindef'],
                                      quick=dict(shapes=['scalar', 'any', 'seqof', 'setof', 'choice', 'deep'])), sizes=False),
